@@ -45,6 +45,7 @@ SameOutcome(a, b) == /\ a.ok = b.ok
 WF(e) == LET n    == Len(e.toks)
              body == IF e.term = "end" THEN e.toks ELSE SubSeq(e.toks, 1, n - 1)
          IN /\ AllTokOK(body) /\ MaxNesting(AbsToks(body)) <= NestingDomain
+            /\ (e.term # "end" => PrefixOK(AbsToks(body)))
             /\ (e.term = "end" => Reading(AbsToks(e.toks)).ok)
 Msg(e) == /\ ~running
           /\ m' = [elems |-> e.elems, avail |-> e.avail, endv |-> e.endv, limit |-> e.limit, term |-> e.term, wf |-> WF(e)]
